@@ -580,6 +580,67 @@ def _operands(model, an, rep, sites=()):
     return n
 
 
+RANDOM_START_APIS = {
+    # documented default of the start vector: random, drawn from the global
+    # NumPy generator
+    "scipy.sparse.linalg.eigs": "v0", "scipy.sparse.linalg.eigsh": "v0",
+    "scipy.sparse.linalg.svds": "v0",
+}
+
+
+def _hidden_randomness(model, rep):
+    """ARPACK (scipy.sparse.linalg.eigs / eigsh / svds) starts its iteration
+    from a *random* vector unless v0 is passed: eigenvectors come back with
+    random sign, close eigenpairs in varying order - identical calls on
+    unchanged operands give different results.  Every call in the package
+    must supply v0 (literally, or through a dictionary literal that is
+    unpacked into the call and has the key)."""
+    R4 = "C15-R4"
+    n = 0
+    for fn in model.all_functions():
+        if fn.path.startswith(R5_SKIP_PREFIX):
+            continue
+        mod = fn.module
+        # function-local imports: from scipy.sparse.linalg import eigs
+        local = {}
+        for x in ast.walk(fn.node):
+            if isinstance(x, ast.ImportFrom) and x.module:
+                for a in x.names:
+                    local[a.asname or a.name] = f"{x.module}.{a.name}"
+        for c in ast.walk(fn.node):
+            if not isinstance(c, ast.Call):
+                continue
+            d = model.dotted(mod, c.func)
+            if d is None and isinstance(c.func, ast.Name):
+                d = local.get(c.func.id)
+            kw = RANDOM_START_APIS.get(d or "")
+            if kw is None:
+                continue
+            n += 1
+            given = any(k.arg == kw for k in c.keywords)
+            for k in c.keywords:
+                if k.arg is None:               # **{...}
+                    for x in ast.walk(k.value):
+                        if isinstance(x, ast.Dict) and any(
+                                isinstance(kk, ast.Constant)
+                                and kk.value == kw for kk in x.keys):
+                            given = True
+            q = fn.short()
+            cons = f"{q}:{d.rsplit('.', 1)[1]}:start-vector"
+            if given:
+                rep.ok(R4, cons, f"{kw} is supplied")
+            else:
+                rep.fail(R4, fn.path, q, cons,
+                         f"'{src(c)[:60]}' leaves {kw} to the library, "
+                         f"which draws a random start vector from the "
+                         f"global generator: the same solve(...) on "
+                         f"unchanged operands returns eigenvectors of "
+                         f"random sign (and close eigenpairs in varying "
+                         f"order)", c.lineno)
+    if n < 2:
+        raise AnalysisError(f"only {n} ARPACK calls found")
+
+
 def _uninitialised(model, rep):
     """R6: nothing a caller can see is read from uninitialised memory.
     (a) Every np.empty buffer is covered *structurally*: all its stores use
@@ -822,6 +883,7 @@ def run(model: Model, rep, tier: str) -> None:
              "np.empty buffers covered structurally; oriented facet sets "
              "designate existing cells")
     _uninitialised(model, rep)
+    _hidden_randomness(model, rep)
     an = Analyzer(model)
     sites = _memo_rules(model, an, rep)
     _ctor_order(model, an, rep, sites)
@@ -841,6 +903,11 @@ _QP = "skfem/element/element_quad/element_quadp.py"
 _LP = "skfem/element/element_line/element_line_pp.py"
 _GUARD = "        if self._X.shape != X.shape or (self._X != X).any():"
 MUTANTS = [
+    ("symmetric eigensolver leaves the start vector to ARPACK",
+     (_U, "        return eigsh(K, M=M, **{'v0': np.ones(K.shape[0]),\n"
+      "                                **params, **solve_time_kwargs})",
+      "        return eigsh(K, M=M, **{**params, **solve_time_kwargs})"),
+     "C15-R4"),
     ("affine normals gathered into an uninitialised buffer",
      ("skfem/mapping/mapping_affine.py",
       "        N = np.zeros((self.dim, len(find)))",
